@@ -177,6 +177,19 @@ CHECKS['C13'] = dict(cat='model_checking', struct=True, engine='symnp (explorer)
          'session state, not a command argument); recorded findings C13/undo-of-group-creation and C13/apply-undo-empty-collection '
          'are excluded by their witness classes')
 
+CHECKS['C17'] = dict(cat='model_checking', struct=True, engine='symnp (explorer) on the real Data',
+    technique='bounded model checking: solver-enumerated operation sequences (valid and invalid arguments) on a real Data, invariant + message-log oracle + SMT value equalities',
+    text='Every sequence of 3 (thorough 4) operations over add_component (valid / wrong shape / duplicate label), derived and '
+         'derived-of-derived attributes, remove_component (any victim / foreign id), reorder (valid / invalid), update_id, '
+         'update_components (valid / wrong shape), update_values_from_data (same / new shape), coords set / unset and label, on a '
+         'dataset with no / identity / affine coordinates inside and outside a collection, plus two free steps after a three-level '
+         'derived chain: after every step all components have the dataset shape, one pixel attribute per dimension, world '
+         'attributes iff coordinates, identifiers unique and in stable order, lookup by name unique-or-None; the hub log announces '
+         'every added / removed / reordered / replaced component, value and label change exactly (right sender and component) and '
+         'nothing that did not happen; attribute values are proved equal to the expected symbolic values.', ref='5/C17',
+    note='bounded depth; ExternallyDerivable/PixelAligned messages are not part of the oracle; recorded finding '
+         'C17/update-id-dependants excluded by its witness class')
+
 NOT_YET = {}
 
 NOT_APPLICABLE = {
